@@ -57,6 +57,36 @@ class Blocker(importlib.abc.MetaPathFinder):
 sys.meta_path.insert(0, Blocker())
 assert "pyopenapi_gen" not in sys.modules
 
+# the generator is not INSTALLED here either: distribution metadata is visible only for the runtime dependencies and what they pulled in
+import importlib.metadata as _md  # noqa: E402
+
+_RUNTIME_DISTS = {"httpx", "httpcore", "h11", "anyio", "sniffio", "idna", "certifi", "cattrs", "attrs", "typing-extensions", "typing_extensions", "exceptiongroup"}
+_real_from_name = _md.Distribution.from_name.__func__
+_real_discover = _md.Distribution.discover.__func__
+
+
+def _norm(n):
+    return str(n).lower().replace("_", "-")
+
+
+def _from_name(cls, name):
+    if _norm(name) not in {_norm(x) for x in _RUNTIME_DISTS}:
+        raise _md.PackageNotFoundError(name)
+    return _real_from_name(cls, name)
+
+
+def _discover(cls, **kwargs):
+    for d in _real_discover(cls, **kwargs):
+        try:
+            if _norm(d.metadata["Name"]) in {_norm(x) for x in _RUNTIME_DISTS}:
+                yield d
+        except Exception:
+            continue
+
+
+_md.Distribution.from_name = classmethod(_from_name)
+_md.Distribution.discover = classmethod(_discover)
+
 
 def load_driver(name):
     path = os.path.join(DRIVERS, name + ".py")
